@@ -61,7 +61,9 @@ pub fn run(p: &Prog) -> ExResult<Expr> {
         Prog::HelperBin(name, p, q) => { let a = run(p)?.to_deep()?; let b = run(q)?.to_deep()?;
             Expr::D(match name.as_str() { "&" => (a & b)?, "|" => (a | b)?, "^" => (a ^ b)?, "%" => (a % b)?, _ => a.operate_binary(b, leak(name))? }) }
         Prog::Partial(idxs, mode, p) => { let m = match mode { 0 => MissingOpMode::Error, 1 => MissingOpMode::PerOperand, _ => MissingOpMode::None };
-            match run(p)? { Expr::F(f) => Expr::F(f.partial_iter_relaxed(idxs.iter().copied(), m)?), Expr::D(d) => Expr::D(d.partial_iter_relaxed(idxs.iter().copied(), m)?) } }
+            // a single even index goes through the wrapper partial_relaxed, everything else through partial_iter_relaxed
+            if idxs.len() == 1 && idxs[0] % 2 == 0 { match run(p)? { Expr::F(f) => Expr::F(f.partial_relaxed(idxs[0], m)?), Expr::D(d) => Expr::D(d.partial_relaxed(idxs[0], m)?) } }
+            else { match run(p)? { Expr::F(f) => Expr::F(f.partial_iter_relaxed(idxs.iter().copied(), m)?), Expr::D(d) => Expr::D(d.partial_iter_relaxed(idxs.iter().copied(), m)?) } } }
         Prog::ReFlat(p) => { let t = match run(p)? { Expr::F(f) => f.unparse().to_string(), Expr::D(d) => d.unparse().to_string() }; Expr::F(FE::parse(leak(&t))?) }
         Prog::ReDeep(p) => { let t = match run(p)? { Expr::F(f) => f.unparse().to_string(), Expr::D(d) => d.unparse().to_string() }; Expr::D(DE::parse(leak(&t))?) }
         Prog::SerdeFlat(p) => { let f = match run(p)? { Expr::F(f) => f, Expr::D(d) => FE::from_deepex(d)? };
